@@ -4,6 +4,7 @@ import (
 	"fmt"
 	"go/token"
 	"go/types"
+	"sort"
 	"strings"
 
 	"golang.org/x/tools/go/ssa"
@@ -196,7 +197,7 @@ func checkC03(p *Program, r *Result) {
 				arg0 = mi.X
 			}
 			for _, o := range oc.origins(arg0) {
-				if o == "field:indexedMessageIterator.messageIndexes" {
+				if o == p.roles().queueOrigin() {
 					onQueue = true
 				}
 			}
@@ -290,12 +291,18 @@ func checkC03(p *Program, r *Result) {
 		var winInstr ssa.Instruction
 		if sl, ok := arg.(*ssa.Slice); ok {
 			winInstr = sl
+		} else if c, ok := arg.(*ssa.Call); ok && p.roles().pendingWindow(c, 0) {
+			winInstr = c
 		} else if u, ok := arg.(*ssa.UnOp); ok && u.Op == token.MUL {
 			// the window variable is captured by the comparator closure: a heap cell; take the store that fills it
 			if al, ok := u.X.(*ssa.Alloc); ok {
 				for _, ref := range *al.Referrers() {
 					if st, ok := ref.(*ssa.Store); ok && st.Addr == ssa.Value(al) {
-						if _, isSlice := st.Val.(*ssa.Slice); isSlice && instrDominates(st, ci) {
+						_, isSlice := st.Val.(*ssa.Slice)
+						if c, ok := st.Val.(*ssa.Call); ok && p.roles().pendingWindow(c, 0) {
+							isSlice = true
+						}
+						if isSlice && instrDominates(st, ci) {
 							winInstr = st
 						}
 					}
@@ -307,8 +314,20 @@ func checkC03(p *Program, r *Result) {
 		}
 		win := winInstr
 		stale := ""
-		for _, f := range []string{"messageIndexes", "curMessageIndex"} {
-			for _, st := range fieldStores(lc, "indexedMessageIterator", f) {
+		for _, tf := range [][2]string{{p.roles().qType, p.roles().qField}, {p.roles().cType, p.roles().cField}} {
+			f := tf[1]
+			// stores in the function itself, and calls of helpers that store
+			var muts []ssa.Instruction
+			for _, st := range fieldStores(lc, tf[0], f) {
+				muts = append(muts, st)
+			}
+			for _, hc := range callsIn(lc, func(hc ssa.CallInstruction) bool {
+				g := hc.Common().StaticCallee()
+				return g != nil && p.transparent(g) && len(regionStores(regionOf(p, g, 3), tf[0], f)) > 0
+			}) {
+				muts = append(muts, hc)
+			}
+			for _, st := range muts {
 				afterWin := st.Block() == win.Block() && blockIndexOf(st) > blockIndexOf(win) || st.Block() != win.Block() && reachableFromSuccs(win.Block())[st.Block()]
 				beforeSort := st.Block() == ci.Block() && blockIndexOf(st) < blockIndexOf(ci) || st.Block() != ci.Block() && reachableFromSuccs(st.Block())[ci.Block()]
 				if afterWin && beforeSort && instrDominates(win, st) {
@@ -731,6 +750,20 @@ func factoryCases(mc *ssa.MakeClosure) []cmpCase {
 				src = st.Val
 			}
 		}
+	}
+	// orientation of the forwarding call: less(x[i], x[j]) or less(x[j], x[i])
+	swapped0 := false
+	if _, i0 := elemOf(fwd.Call.Args[0]); i0 == ssa.Value(c.Params[1]) {
+		swapped0 = true
+	}
+	// less, ok := table[it.order]: a package-level table of comparators keyed by the read order
+	if tg, key := tableLookupOf(src); tg != nil && loadOfField(key, "indexedMessageIterator", "order") {
+		var out []cmpCase
+		for k, f := range packageTableFuncs(tg) {
+			out = append(out, cmpCase{order: int(k), fn: f, swapped: swapped0})
+		}
+		sort.Slice(out, func(i, j int) bool { return out[i].order < out[j].order })
+		return out
 	}
 	fc, ok := src.(*ssa.Call)
 	if !ok {
